@@ -37,6 +37,7 @@ func (a *Act) execInstr(st *State, in ssa.Instruction, b *ssa.BasicBlock, incomi
 		addr := a.alloc(st, x.Comment)
 		a.storeAtQuiet(st, addr, et, a.zero(et))
 		a.regs[x] = Val{S: addr, Sort: sInt, T: x.Type()}
+		a.zeroFacts(st, a.regs[x], et)
 	case *ssa.Store:
 		p := a.val(st, x.Addr)
 		v := a.val(st, x.Val)
@@ -173,6 +174,23 @@ func (a *Act) execInstr(st *State, in ssa.Instruction, b *ssa.BasicBlock, incomi
 	return false
 }
 
+// zeroFacts assumes the declared "zero" facts (model fields of a zero value) for a fresh allocation.
+func (a *Act) zeroFacts(st *State, p Val, et types.Type) {
+	n, ok := types.Unalias(et).(*types.Named)
+	if !ok || n.Obj().Pkg() == nil {
+		return
+	}
+	zi := a.eng.chaninvs["zero:"+n.Obj().Pkg().Path()+"."+n.Obj().Name()]
+	if zi == nil {
+		return
+	}
+	env := a.specEnv(st)
+	env.vars[zi.Var] = p
+	if s, err := env.evalBool(zi.Expr); err == nil {
+		a.vc.assume("true", s)
+	}
+}
+
 func (a *Act) storeAtQuiet(st *State, addr string, t types.Type, v Val) {
 	wl := a.writeLog
 	a.writeLog = nil
@@ -208,6 +226,7 @@ func (a *Act) edge(st *State, from, to *ssa.BasicBlock, cond string, incoming ma
 	if a.loopBody[to] != nil && to.Dominates(from) {
 		// back edge: invariant preserved
 		if a.vc.quiet == 0 {
+			a.assertHints(to, es)
 			a.assertInvs(to, es, "inv-preserved")
 		}
 		return
@@ -434,6 +453,18 @@ func (a *Act) convert(st *State, v Val, t types.Type) Val {
 		flo, fhi, fk := intRange(fb)
 		r := Val{S: v.S, Sort: sInt, T: t}
 		if ok && fk && !(rangeWithin(flo, fhi, lo, hi)) {
+			fbits, fsigned, _ := intBits(fb)
+			tbits, tsigned, _ := intBits(tb)
+			if fbits == tbits && fsigned != tsigned {
+				// same width, sign reinterpretation: one conditional correction, no mod
+				x := a.vc.define("cv", sInt, v.S)
+				if tsigned {
+					r.S = fmt.Sprintf("(ite (< %s %s) %s (- %s %s))", x, pow2(tbits-1), x, x, pow2(tbits))
+				} else {
+					r.S = fmt.Sprintf("(ite (>= %s 0) %s (+ %s %s))", x, x, x, pow2(tbits))
+				}
+				return r
+			}
 			r = a.wrapInt(r)
 		}
 		return r
